@@ -350,3 +350,12 @@ End Conn.
 
 Arguments conn_refl {nodes E}.
 Arguments conn_step {nodes E}.
+
+(* connectivity is monotone in the node table and in the (symmetric) edge set *)
+Lemma conn_mono_nodes nodes nodes' E E' v w :
+  (forall x, In x nodes -> In x nodes') -> (forall a b, adj E a b -> adj E' a b) ->
+  conn nodes E v w -> conn nodes' E' v w.
+Proof.
+  intros Hn He. induction 1 as [v Hv|v w x C IH Hx Ha]; [constructor; auto|].
+  eapply conn_step; eauto.
+Qed.
